@@ -729,7 +729,10 @@ def _sort_by(it, a, c):
     l = seq(a[0])
     def less_eq(x, y):
         if c.key.endswith('sort_by_key'):
-            kx = it.call_closure(a[1], [Ref([x], 0)]); ky = it.call_closure(a[1], [Ref([y], 0)])
+            kx = deref(it.call_closure(a[1], [Ref([x], 0)])); ky = deref(it.call_closure(a[1], [Ref([y], 0)]))
+            if isinstance(kx, Str) or isinstance(ky, Str):      # text keys (e.g. sort_by_key(|a| a.to_string())): byte-wise order of concrete texts
+                if not (isinstance(kx, Str) and isinstance(ky, Str)) or kx.s is None or ky.s is None: raise Unsupported('sort_by_key on symbolic text keys')
+                return kx.s.encode() <= ky.s.encode()
             return it.ctx.branch(kx <= ky, 'sortkey')
         o = it.call_closure(a[1], [Ref([x], 0), Ref([y], 0)])
         return o.variant != 'Greater'
